@@ -18,7 +18,7 @@ FD = _d.FieldDescriptor
 PROFILE = grammar.profile(
     p_sstream=0.5, p_cstream=0.4, p_bidi=0.4, p_lro=0.0, p_list=0.2, p_keyword_rpc=0.3, p_stream_of_empty=0.2, p_foreign_request=0.3,
     p_service_config=0.7, p_reserved_field=0.2, transports=["grpc", "grpc", "grpc+rest"], p_yaml=0.1, p_local_empty=0.15, p_two_services=0.4, p_same_method_two_services=0.6, p_mixed_foreign_io=0.3,
-    p_custom=0.7, p_streamed_list=0.2)
+    p_custom=0.7, p_streamed_list=0.2, p_cstream_of_empty=0.25)
 
 BUDGET = {
     "quick": {"worlds": 150, "runs": 100, "wall_cap": 300, "world_wall": 90},
@@ -194,6 +194,7 @@ def judge(spec, scenario, history):
     ops = oracle.all_ops(scenario)
     by = oracle.events_by_op(history, ops)
     probes = {}
+    pending = []
     if scenario.get("threads"):
         probes["threaded_callers"] = 1
         starts = [e["op"] for e in history if e["k"] == "invoke"]
@@ -220,7 +221,27 @@ def judge(spec, scenario, history):
         v = judge_op(spec, codec, scenario, op, evs, probes)
         if v:
             return v, probes
-    return [], probes
+        if op["kind"] == "cstream" and any(e["k"] == "awaitable_call" for e in evs):
+            # open known finding: the asyncio method of a client-streaming RPC hands back the CALL object, not the
+            # reply it is annotated and documented to return (the harness awaited it; everything else was judged)
+            _bump(probes, "async_cstream_returned_a_call_object")
+            fs, s, m = find_method(spec, op["service"], op["method"])
+            pending.append({"rule": "async_cstream_returns_call", "op": op["id"], "method": f"/{fs['package']}.{s['name']}/{m['name']}",
+                            "msg": f"await client.{op['method']}(requests=...) returned a {next(e['cls'] for e in evs if e['k'] == 'awaitable_call')} "
+                                   f"(the still running call), not the {m['output']} the server sent; awaiting THAT gives the reply"})
+    return pending[:1], probes
+
+
+def signature(spec, scenario, rule, op_id=None):
+    """Shape signatures of the recorded open finding about asyncio client-streaming methods."""
+    if scenario is not None and scenario.get("client") == "async" and rule != "async_cstream_returns_call":
+        for a in scenario["actors"]:
+            for op in a["ops"]:
+                if (op_id is None or op["id"] == op_id) and op["kind"] == "cstream":
+                    fs, s, m = find_method(spec, op["service"], op["method"])
+                    if m["output"] == ".google.protobuf.Empty" and op_id is not None:
+                        return "asyncio client-streaming call whose reply is google.protobuf.Empty"
+    return rule
 
 
 def judge_op(spec, codec, scenario, op, evs, probes):
